@@ -159,6 +159,14 @@ func check(c Case) error {
 	}
 	x := build(c)
 	text := gff.Build(x)
+	// the text handed back must stay what it is when another sequence is written before it is read
+	snapshot := string(text)
+	other := poly.Sequence{Sequence: strings.Repeat("tgca", len(x.Sequence)/8)}
+	other.Meta.Name = "other"
+	_, _ = gff.Build(other), gff.Build(other)
+	if string(text) != snapshot {
+		return vk.Errf("the bytes returned by Build(x) changed when another sequence was built afterwards: %q, was %q", string(text), snapshot)
+	}
 	if err := compare("Parse(Build(x))", c, gff.Parse(text)); err != nil {
 		return err
 	}
